@@ -577,10 +577,8 @@ func runCheck(c *propCfg, tier string) int {
 		if !rep {
 			// flaky: does not reproduce from its own replay file; try a few more times for schedule-dependent failures
 			again := false
-			if c.race || isCrumb {
-				for k := 0; k < 8 && !again; k++ {
-					again, _, out = replayFresh(b, cand, rto)
-				}
+			for k := 0; k < 8 && !again; k++ {
+				again, _, out = replayFresh(b, cand, rto)
 			}
 			if !again {
 				infra = append(infra, fmt.Sprintf("failure of shard %s did not reproduce from %s (flaky harness or schedule-dependent):\n%s", filepath.Base(r.base), cand, logTail))
